@@ -21,6 +21,7 @@ def DCtx.exact : DCtx := DCtx.ideal NumCtx.exact
 @[simp] theorem exact_fsub (a b : Rat) : DCtx.exact.fsub a b = a - b := rfl
 @[simp] theorem exact_fdiv (a b : Rat) : DCtx.exact.fdiv a b = a / b := rfl
 @[simp] theorem exact_reprD (x : Rat) : DCtx.exact.reprD x = x := rfl
+@[simp] theorem exact_fadd (a b : Rat) : DCtx.exact.fadd a b = a + b := rfl
 
 /-- sum of the fill sizes -/
 def fillSum (fs : List Fill) : Rat := (fs.map (·.amount)).sum
@@ -59,7 +60,8 @@ theorem sumSizes_exact (ls : List Level) : sumSizes DCtx.exact ls = sizeSum ls :
 /-- what an accepted `check_transaction` guarantees -/
 theorem checkTx_ok {cx : DCtx} {c : TokenCfg} {book : List Instr} {r : Req} {isBuy : Bool} {ck : Checked}
     (h : checkTx cx c book r isBuy = .ok ck) :
-    findInstr book r.name = some ck.ins ∧ ck.ins.stateOpen = true ∧ c.minAmount ≤ r.amount ∧
+    (∃ ins0, findInstr book r.name = some ins0 ∧ ck.ins = normInstr cx ins0) ∧ ck.ins.stateOpen = true ∧
+    c.minAmount ≤ r.amount ∧
     ck.amount = roundDec c.tradeExp r.amount ∧
     ∃ avail, availSide cx ck.ins r.mult isBuy = .ok avail ∧
       ((reqPrice cx ck.ins r = .ok none ∧ ck.price = none ∧ ck.amount ≤ sumSizes cx avail) ∨
@@ -68,7 +70,8 @@ theorem checkTx_ok {cx : DCtx} {c : TokenCfg} {book : List Instr} {r : Req} {isB
   unfold checkTx at h
   split at h
   · exact absurd h (by simp)
-  · rename_i ins hfind
+  · rename_i ins0 hfind
+    simp only [] at h
     split at h
     · exact absurd h (by simp)
     · rename_i hopen
@@ -77,7 +80,6 @@ theorem checkTx_ok {cx : DCtx} {c : TokenCfg} {book : List Instr} {r : Req} {isB
       · rename_i hmin
         have hta : tradeAmount c r.amount = roundDec c.tradeExp r.amount := by
           unfold tradeAmount; rw [if_neg hmin]
-        simp only [] at h
         split at h
         · exact absurd h (by simp)
         · rename_i price hprice
@@ -94,14 +96,14 @@ theorem checkTx_ok {cx : DCtx} {c : TokenCfg} {book : List Instr} {r : Req} {isB
                 · rename_i hle
                   simp only [Except.ok.injEq] at h
                   subst h
-                  exact ⟨hfind, by simpa using hopen, not_lt.mp hmin, hta, avail, havail,
+                  exact ⟨⟨ins0, hfind, rfl⟩, by simpa using hopen, not_lt.mp hmin, hta, avail, havail,
                     Or.inr ⟨p, l, rest, hprice, hfa, rfl, not_lt.mp hle⟩⟩
             · split at h
               · exact absurd h (by simp)
               · rename_i hle
                 simp only [Except.ok.injEq] at h
                 subst h
-                exact ⟨hfind, by simpa using hopen, not_lt.mp hmin, hta, avail, havail,
+                exact ⟨⟨ins0, hfind, rfl⟩, by simpa using hopen, not_lt.mp hmin, hta, avail, havail,
                   Or.inl ⟨hprice, rfl, not_lt.mp hle⟩⟩
 
 
